@@ -476,7 +476,28 @@ def _regexp_thunk(r):
 
 def _other_thunk(r, taken):
     n = fresh_names(r, 6, taken)
-    kind = r.randrange(16)
+    kind = r.randrange(21)
+    if kind >= 16:
+        # values whose ORDER could come from a set / dict of the host: member order under an array replacer,
+        # key enumeration, and which closure cell an inner function reads
+        ks = fresh_names(r, r.randint(9, 13), taken)
+        sub = ks[:]
+        r.shuffle(sub)
+        if kind == 16:
+            return "function(){ var o = {%s}; return JSON.stringify(o, [%s]); }" % (
+                ", ".join("%s: %d" % (k, i) for i, k in enumerate(ks)), ", ".join("'%s'" % k for k in sub[: r.randint(9, len(sub))]))
+        if kind == 17:
+            return "function(){ var o = {%s}; var seen = []; for (var q in o) seen.push(q); return Object.keys(o).join() + '|' + seen.join() + '|' + JSON.stringify(o); }" % (
+                ", ".join("%s: %d" % (k, i) for i, k in enumerate(ks)))
+        if kind == 18:
+            return "function(){ return JSON.stringify({%s}, [%s, 1, '%s'], 1); }" % (
+                ", ".join("%s: {%s: %d}" % (k, sub[i % len(sub)], i) for i, k in enumerate(ks)), ", ".join("'%s'" % k for k in sub), sub[0])
+        # 19, 20: a function without locals of its own hands out an inner function over the same outer variables
+        vs = ks[: r.randint(3, 5)]
+        use = " + ".join("%s * %d" % (v, 10 ** i) for i, v in enumerate(vs))
+        mid = "function(){ return function(){ return %s; }; }" % use if kind == 19 else "function(){ return (() => () => %s)(); }" % use
+        return "function(){ var %s; var mid = %s; var inner = mid(); %s = 7; return [inner(), mid()()].join(); }" % (
+            ", ".join("%s = %d" % (v, i + 1) for i, v in enumerate(vs)), mid, vs[-1])
     if kind == 0:
         return "function(){ return %s + %s * %s; }" % (n[0], n[1], n[2])
     if kind == 1:
